@@ -60,6 +60,7 @@ type ReqSpec struct {
 	Sep       string      `json:"sep,omitempty"` // json streams: separator between objects
 	Timeout   string      `json:"timeout,omitempty"`
 	PingPong  bool        `json:"ping_pong,omitempty"`
+	LateClose bool        `json:"late_close,omitempty"` // the client half-closes only after it has seen the call end (it waits for the server's verdict first)
 	Handler   HandlerSpec `json:"handler"`
 	Fault     ReqFault    `json:"fault"`
 	Window    int         `json:"window,omitempty"`
@@ -201,6 +202,8 @@ func (r *reqState) Enabled(op int) bool {
 		return k == 0 || log.sentMirror() >= k || log.returnedMirror() || r.q.mAborted || r.q.mReturned
 	case opConsume:
 		return r.q.mOut > r.q.mConsumed
+	case opClose:
+		return !r.spec.LateClose || r.q.mReturned || r.q.mAborted
 	}
 	return true
 }
@@ -456,7 +459,7 @@ func (r *reqState) clientTask() {
 		r.setSentMirror(pos)
 		r.sim.Note("sent " + itoa(n))
 	}
-	if !r.cSlot.Yield("c.close", core.Always, opClose) {
+	if !r.cSlot.Yield("c.close", r, opClose) {
 		return
 	}
 	if r.q.isAborted() {
